@@ -14,7 +14,7 @@ use rtcp_types::RtcpWriteError;
 use std::sync::atomic::{AtomicBool, Ordering};
 
 pub fn hows(i: usize) -> How {
-    How { owned: i & 1 == 1, wrap: i & 2 == 2 }
+    How { owned: i & 1 == 1, wrap: i & 2 == 2, probe: i & 4 == 4 }
 }
 fn pk(cfg: &Cfg) -> &'static str {
     if cfg.padding() > 0 {
@@ -347,7 +347,7 @@ pub fn workload(
     }
     // 2a. relational configurations, each through all four construction routes
     for c in relational_cfgs() {
-        for h in 0..4 {
+        for h in 0..8 {
             force.set(Some(h));
             go(ctx, &c);
         }
